@@ -8,6 +8,7 @@ harness/props/c06.py).  Semantics: a coefficient block `p` of degree `d` stands 
 iteration is executed exactly once: `sched.flatten.Perm (List.range n)`). -/
 import HitenModel.Lemmas.C06Poly
 import HitenModel.Lemmas.C06Subst
+import HitenModel.Lemmas.C06Deg
 import HitenModel.Gen.C06
 
 set_option linter.unusedSectionVars false
@@ -507,5 +508,93 @@ example : WF ([[0], [0, 0, 0, 0, 0, 0], [3, 0, 0, 0, 0, 0, 0, 0, 0, 0, 0, 0, 0, 
 /-- `max_deg = 0` (excluded by `1 ≤ N`): `_polynomial_variable` has no block 1 to write to and returns the zero
 polynomial, so every `L[i]` is zero — the hypothesis `1 ≤ N` of the variable-polynomial theorems is necessary -/
 example : polynomialVariable (K := Int) (mkTables 2) 0 0 = [[0]] := by decide +kernel
+
+/-! ## 5. jacobian and degree
+
+`_polynomial_jacobian`, `_polynomial_degree`, `_get_degree`, `_polynomial_total_degree` (operations.py). -/
+
+section jacobian
+variable {K : Type} [CommSemiring K] [DecidableEq K]
+
+/-- **jacobian_spec** (`_polynomial_jacobian`): under the hypotheses of `differentiate_spec` the result has six entries, entry `v`
+is `_polynomial_differentiate(P, v, max_deg)` — hence well-formed for `max(max_deg-1,0)` — and its block `r` is `∂/∂x_v` of
+block `r+1` of the input (any scheduler) -/
+theorem jacobian_spec {D N : Nat} (hD : D ≤ 63) (hN : N ≤ D) (σ : Nat → List (List Nat))
+    (hσ : ∀ n, (σ n).flatten.Perm (List.range n)) (P : GPoly K) (hP : WF P N) :
+    (polynomialJacobian (mkTables D) σ P N).length = 6 ∧ ∀ v : Fin 6,
+      (polynomialJacobian (mkTables D) σ P N).getD v.val [] = polynomialDifferentiate (mkTables D) σ P v.val N ∧
+      WF ((polynomialJacobian (mkTables D) σ P N).getD v.val []) (N - 1) ∧ ∀ r, r + 1 ≤ N →
+        toMv (mkTables D) r (((polynomialJacobian (mkTables D) σ P N).getD v.val []).getD r [])
+          = pderiv v (toMv (mkTables D) (r + 1) (P.getD (r + 1) [])) :=
+  toMv_polynomialJacobian hD hN σ hσ P hP
+
+end jacobian
+
+section degree
+variable {K : Type} [OfNat K 0] [DecidableEq K]
+
+/-- **degree_spec** (`_polynomial_degree`, any list of blocks): `-1` iff no block has a non-zero entry; the value `d` is an
+index of the list whose block has a non-zero entry and above which no block has one -/
+theorem degree_spec (P : GPoly K) :
+    (polynomialDegree P = -1 ↔ ∀ d, d < P.length → anyNZ (P.getD d []) = false) ∧
+    ∀ d : Nat, polynomialDegree P = (d : Int) →
+      d < P.length ∧ anyNZ (P.getD d []) = true ∧ ∀ e, d < e → e < P.length → anyNZ (P.getD e []) = false :=
+  ⟨polynomialDegree_eq_neg_one P, polynomialDegree_eq_nat P⟩
+
+/-- converse of the second half of `degree_spec`: the characterisation determines the returned value -/
+theorem degree_spec_converse (P : GPoly K) (d : Nat) (hd : d < P.length) (hnz : anyNZ (P.getD d []) = true)
+    (htop : ∀ e, d < e → e < P.length → anyNZ (P.getD e []) = false) : polynomialDegree P = (d : Int) :=
+  polynomialDegree_of_top P d hd hnz htop
+
+end degree
+
+section degreeSem
+variable {K : Type} [CommSemiring K] [DecidableEq K]
+
+/-- **degree_spec**, semantic reading on a well-formed list: if `_polynomial_degree` returns `d` then block `d` denotes a
+non-zero polynomial and every higher block denotes `0` -/
+theorem degree_sem_spec {D N : Nat} (hD : D ≤ 63) (hN : N ≤ D) (P : GPoly K) (hP : WF P N) (d : Nat)
+    (h : polynomialDegree P = (d : Int)) :
+    d ≤ N ∧ toMv (mkTables D) d (P.getD d []) ≠ 0 ∧ ∀ e, d < e → e ≤ N → toMv (mkTables D) e (P.getD e []) = 0 :=
+  toMv_polynomialDegree_nat hD hN P hP d h
+
+/-- … and if it returns `-1` every block denotes `0` -/
+theorem degree_sem_spec_zero {D N : Nat} (P : GPoly K) (hP : WF P N) (h : polynomialDegree P = -1) :
+    ∀ e, e ≤ N → toMv (mkTables D) e (P.getD e []) = 0 :=
+  toMv_polynomialDegree_neg_one P hP h
+
+/-- `_get_degree`: a block of length `psi[6, d]` with `d` inside the table (`d ≤ Dt`) has degree `d` (`psi[6, ·]` is strictly
+increasing, so the first column with that entry is `d`) -/
+theorem get_degree_spec (Dt d : Nat) (hd : d ≤ Dt) (b : List K) (hb : b.length = psi 6 d) : getDegree Dt b = (d : Int) :=
+  getDegree_of_length Dt d hd b hb
+
+/-- **total_degree_eq_degree**: on a well-formed list whose degrees are inside the psi table (`N ≤ Dt`; the live table has
+`Dt = 30`) `_polynomial_total_degree` and `_polynomial_degree` return the same value -/
+theorem total_degree_eq_degree {N : Nat} (Dt : Nat) (hDt : N ≤ Dt) (P : GPoly K) (hP : WF P N) :
+    polynomialTotalDegree Dt P = polynomialDegree P :=
+  polynomialTotalDegree_eq_polynomialDegree Dt hDt P hP
+
+end degreeSem
+
+/-- non-vacuity: a constant, a linear polynomial, the zero polynomial -/
+example : polynomialDegree ([[1], [0, 0, 0, 0, 0, 0]] : GPoly Int) = 0 := by decide +kernel
+example : polynomialTotalDegree 30 ([[0], [0, 2, 0, 0, 0, 0]] : GPoly Int) = 1 := by decide +kernel
+example : polynomialDegree ([[0], [0, 2, 0, 0, 0, 0]] : GPoly Int) = 1 := by decide +kernel
+example : polynomialDegree ([[0]] : GPoly Int) = -1 ∧ polynomialTotalDegree 30 ([[0]] : GPoly Int) = -1 := by decide +kernel
+example : polynomialDegree ([] : GPoly Int) = -1 ∧ polynomialTotalDegree 30 ([] : GPoly Int) = -1 := by decide +kernel
+
+/-- the `WF` hypothesis of `total_degree_eq_degree` is sharp: a block of the wrong length (2 slots at index 1) is ignored by
+`_polynomial_total_degree` and counted by `_polynomial_degree` -/
+example : polynomialTotalDegree 30 ([[0], [1, 1]] : GPoly Int) = -1 ∧ polynomialDegree ([[0], [1, 1]] : GPoly Int) = 1 := by
+  decide +kernel
+
+/-- … and so is `N ≤ Dt`: a well-formed list beyond the table (`Dt = 0`) has total degree `-1` -/
+example : polynomialTotalDegree 0 ([[0], [0, 2, 0, 0, 0, 0]] : GPoly Int) = -1 := by decide +kernel
+
+/-- the six entries of a jacobian (`x₀x₁` at `N = 2`, one thread): `∂/∂x₀ = x₁`, `∂/∂x₁ = x₀`, the rest `0` -/
+example : (polynomialJacobian (K := Int) (mkTables 2) (fun n => [List.range n])
+      [[0], [0, 0, 0, 0, 0, 0], [0, 1, 0, 0, 0, 0, 0, 0, 0, 0, 0, 0, 0, 0, 0, 0, 0, 0, 0, 0, 0]] 2)
+    = [[[0], [0, 1, 0, 0, 0, 0]], [[0], [1, 0, 0, 0, 0, 0]], [[0], [0, 0, 0, 0, 0, 0]], [[0], [0, 0, 0, 0, 0, 0]],
+       [[0], [0, 0, 0, 0, 0, 0]], [[0], [0, 0, 0, 0, 0, 0]]] := by decide +kernel
 
 end HitenModel.C06
